@@ -5,13 +5,13 @@
 cd "$(dirname "$0")/../coq"
 gen=$(mktemp -d /tmp/coqchk_gen.XXXX)
 q="-Q Model PauLie -Q Theory PauLie -Q Props PauLie -Q Refine PauLieRefine -Q $gen PauLieGen"
-for k in classification:Class compiler:Comp pstring:PS collection:Coll parser:Parser table:Table apps:App linear:Lin optimiser:Opt search:Search factory:Factory numpy:Numpy; do
+for k in classification:Class compiler:Comp pstring:PS collection:Coll parser:Parser table:Table apps:App linear:Lin optimiser:Opt search:Search factory:Factory numpy:Numpy queue:Queue; do
   /venv/bin/python ../tools/py2coq.py /repo $gen/${k#*:}Gen.v ${k%%:*} > /dev/null 2>&1 || echo "translator failed for $k"
   coqc $q -w -notation-overridden,-deprecated $gen/${k#*:}Gen.v > /dev/null 2>&1
   coqc $q -w -notation-overridden,-deprecated -o $gen/${k#*:}Refine.vo Refine/${k#*:}Refine.v > /dev/null 2>&1 || echo "refinement ${k#*:}Refine.v failed"
 done
 mods=$(for i in $(seq -w 1 20); do echo PauLie.C$i; done)
-refs="PauLieGen.ClassRefine PauLieGen.CompRefine PauLieGen.PSRefine PauLieGen.CollRefine PauLieGen.ParserRefine PauLieGen.TableRefine PauLieGen.AppRefine PauLieGen.LinRefine PauLieGen.OptRefine PauLieGen.SearchRefine PauLieGen.FactoryRefine PauLieGen.NumpyRefine"
+refs="PauLieGen.ClassRefine PauLieGen.CompRefine PauLieGen.PSRefine PauLieGen.CollRefine PauLieGen.ParserRefine PauLieGen.TableRefine PauLieGen.AppRefine PauLieGen.LinRefine PauLieGen.OptRefine PauLieGen.SearchRefine PauLieGen.FactoryRefine PauLieGen.NumpyRefine PauLieGen.QueueRefine"
 ( time timeout 3600 coqchk -silent -o $q $mods $refs ) > ../coqchk_report.txt 2>&1
 echo "exit $?" >> ../coqchk_report.txt
 rm -rf $gen
